@@ -377,6 +377,11 @@ def main_check(spec, argv):
             # the first configuration carries the full enumeration; the others repeat it, thinned where a
             # harness honours --light (only the 2^32-value sweeps do)
             extra = ["--light"] if (tier == "thorough" and cfgname != configs[0]) else []
+            # quick tier: the optimised NDEBUG build repeats every QUICK_NDEBUG_SLICE-th unit (selected by hash) -
+            # enough to notice what only exists in that configuration (work done inside assert(), code the
+            # optimiser may drop)
+            if tier == "quick" and cfgname == "rel-asan":
+                extra = ["--slice", str(spec.get("quick_ndebug_slice", 4))]
             run_harness(exe, os.path.join(workdir, cfgname, "out"), tier, seed, res, nshards=args.jobs,
                         extra_args=extra, unit_timeout=spec.get("unit_timeout", 300), cfgname=cfgname)
             per_config[cfgname] = {"cases": res.cases - cases_before}
